@@ -175,10 +175,9 @@ func i1Build(r *rng, dns bool) *i1Scenario {
 	}
 	sc.storage = s
 	sc.note = strings.Join(note, " ‖ ")
-	scan := s.NewRuleStorageScanner()
-	for scan.Scan() {
-		f, _ := scan.Rule()
-		switch f := f.(type) {
+	// the rules the requests are aimed at are read list by list, not through the storage scanner under test
+	for _, sr := range mScanLists(ls) {
+		switch f := sr.rule.(type) {
 		case *rules.NetworkRule:
 			sc.nets = append(sc.nets, f)
 			sc.texts = append(sc.texts, f.RuleText)
